@@ -22,7 +22,7 @@ import (
 //	    multiplication on the way to the PTS (x/den*num truncates before scaling).
 func c32Arith(c *Ctx) {
 	r := c.R
-	r.Rule("C32.R4", "PTS arithmetic discipline in ivfwriter: differences of 32-bit RTP timestamps are taken modulo 2^32 (subtract at uint32, then widen); no integer quotient feeds a multiplication (scale before dividing)", 3)
+	r.Rule("C32.R4", "PTS arithmetic discipline in ivfwriter and ivfreader: differences of 32-bit RTP timestamps are taken modulo 2^32 (subtract at uint32, then widen); a timestamp-derived value is never scaled by a multiplication narrower than 64 bits; no integer quotient feeds a multiplication (scale before dividing)", 3)
 	fTS := c.P.FieldOfExternal("github.com/pion/rtp", "Header", "Timestamp")
 	fFirst := c.mustField("C32.R4", "pkg/media/ivfwriter", "IVFWriter", "firstFrameTimestamp")
 	if fTS == nil {
@@ -33,10 +33,15 @@ func c32Arith(c *Ctx) {
 		return
 	}
 	pkg := c.P.Pkg("pkg/media/ivfwriter")
+	rpkg := c.P.Pkg("pkg/media/ivfreader")
 	nSub, nMul := 0, 0
 	for _, fi := range c.P.AllFuncs() {
-		if fi.Pkg != pkg || fi.Decl.Body == nil {
+		if (fi.Pkg != pkg && fi.Pkg != rpkg) || fi.Decl.Body == nil {
 			continue
+		}
+		pname := "ivfwriter."
+		if fi.Pkg == rpkg {
+			pname = "ivfreader."
 		}
 		fn := c.P.SSAFunc(fi)
 		if fn == nil {
@@ -64,7 +69,7 @@ func c32Arith(c *Ctx) {
 						r.Cells += len(dx.Values) + len(dy.Values)
 						bt, _ := bo.Type().Underlying().(*types.Basic)
 						ok32 := bt != nil && (bt.Kind() == types.Uint32)
-						key := "ivfwriter." + fi.Name() + "|timestamp-difference"
+						key := pname + fi.Name() + "|timestamp-difference"
 						r.Check(ok32, "C32.R4", key, c.P.Pos(bo.Pos()),
 							"RTP timestamp difference taken modulo 2^32",
 							"two RTP-timestamp-derived values are subtracted at type "+bo.Type().String()+": the operands were widened first, so a stream crossing the 2^32 timestamp wrap gets a PTS near 2^64 instead of a small offset")
@@ -78,8 +83,17 @@ func c32Arith(c *Ctx) {
 						if q == nil {
 							q = c32QuotientOperand(bo.Y)
 						}
-						key := "ivfwriter." + fi.Name() + "|scale"
-						if q != nil {
+						key := pname + fi.Name() + "|scale"
+						narrow := false
+						if bt.Kind() == types.Uint32 || bt.Kind() == types.Int32 || bt.Kind() == types.Uint16 || bt.Kind() == types.Int16 {
+							dx, dy := core.ValueDeps(bo.X), core.ValueDeps(bo.Y)
+							if dx.HasField(fTS) || dx.HasField(fFirst) || dy.HasField(fTS) || dy.HasField(fFirst) {
+								narrow = true
+							}
+						}
+						if narrow {
+							r.Fail("C32.R4", key, c.P.Pos(bo.Pos()), "an RTP-timestamp-derived value is scaled by a multiplication at type "+bo.Type().String()+" (before widening): the product wraps once the stream is longer than 2^32/factor ticks, so later PTS values jump backwards")
+						} else if q != nil {
 							r.Fail("C32.R4", key, c.P.Pos(bo.Pos()), "an integer quotient is multiplied afterwards (x / d * n): the division truncates before scaling, so every PTS is wrong unless the numerator is 1")
 						} else {
 							r.OK("C32.R4", key, c.P.Pos(bo.Pos()), "multiplication operands are not truncated quotients")
